@@ -29,6 +29,7 @@ const (
 	ocOK = iota
 	ocErr
 	ocShort
+	ocErrFull // the whole length reported together with an error (ConsoleWriter and the syslog writers do that)
 )
 
 type c14Rec struct {
@@ -113,6 +114,10 @@ func (d *c14Dst) do(l zerolog.Level, hasLv bool, p []byte) (int, error) {
 	case ocErr:
 		zsim.Fault("dst_error")
 		return 0, ev.errs[d.idx]
+	case ocErrFull:
+		zsim.Fault("dst_error")
+		zsim.Probe("dst_error_with_full_count")
+		return len(p), ev.errs[d.idx]
 	case ocShort:
 		zsim.Fault("dst_short_write")
 		if len(p) == 0 {
@@ -265,7 +270,7 @@ func (c14World) Run(prop string, ch *zsim.Choices, trace bool) *RunResult {
 				for d := 0; d < nd; d++ {
 					oc := ocOK
 					if ch.Intn(6) < faultRate {
-						oc = 1 + ch.Intn(2)
+						oc = 1 + ch.Weighted(3, 3, 1)
 					}
 					ev.outcome = append(ev.outcome, oc)
 					// distinct per (destination, event), wrapping error values that code likes to
@@ -367,7 +372,7 @@ func (c14World) Run(prop string, ch *zsim.Choices, trace bool) *RunResult {
 				if d.filter && ev.level < ev.mins[i] && !r.plain {
 					continue
 				}
-				if ev.outcome[i] == ocErr {
+				if ev.outcome[i] == ocErr || ev.outcome[i] == ocErrFull {
 					want = ev.errs[i]
 					break
 				}
